@@ -345,8 +345,27 @@ def _wd(x):
 def impl(op, backend):
     p = _P["p"]
     k = op[0]
-    _FORM[0] = zlib.crc32(repr(op).encode()) & 1
+    h = zlib.crc32(repr(op).encode())
+    _FORM[0] = h & 1
+    # weekday navigation does not depend on the configured first / last day of the week: a deterministic quarter of the ops runs
+    # under a non-default pendulum.week_starts_at / week_ends_at (restored afterwards, together with the stdlib calendar setting)
+    import calendar
+    cfg = (h >> 3) % 4 == 0
+    if cfg:
+        p.week_starts_at(p.WeekDay((h >> 5) % 7))
+        p.week_ends_at(p.WeekDay(((h >> 5) + 6) % 7))
     signal.setitimer(signal.ITIMER_REAL, 5.0)
+    try:
+        return _impl(op, p, k)
+    finally:
+        signal.setitimer(signal.ITIMER_REAL, 0)
+        if cfg:
+            p.week_starts_at(p.MONDAY)
+            p.week_ends_at(p.SUNDAY)
+            calendar.setfirstweekday(calendar.MONDAY)
+
+
+def _impl(op, p, k):
     try:
         if k[0] == "d":
             if k in ("dnext", "dprev"):
@@ -384,7 +403,7 @@ def impl(op, backend):
             return "err TimezoneChanged"
         return D.outv(r)
     finally:
-        signal.setitimer(signal.ITIMER_REAL, 0)
+        pass
 
 
 # ----------------------------------------------------------------------------- oracle
